@@ -436,6 +436,47 @@ def run(prog, tier) -> Result:
                 cr.run("R11.4", GET, f"updates for two periods (validity {kind}), date in the {read} one, {pair[0]}->{pair[1]}",
                        two_setup(kind, "next", read, pair), judge_rate)
 
+    # ------------------------------------------------------------------ thorough tier: longer histories, every pair everywhere
+    if tier == "thorough":
+        def three_setup(kind, read, pair):
+            """P(ca, cb); next period(ca); P again (cb): read in P -> ca from update 1, cb from update 3;
+            read in the next period -> ca from update 2, cb missing."""
+            def setup(c):
+                s = Scenario(c, prog)
+                v1, p1 = s.validity(kind, "p")
+                s.update(v1, p1, ["ca", "cb"])
+                v2, p2 = s.shifted(kind, "q", "p", "next")
+                s.update(v2, p2, ["ca"])
+                v3, p3 = s.validity(kind, "p")
+                s.update(v3, p3, ["cb"])
+                s.eff = s.date_in(p1 if read == "first" else p2)
+                s.want_pair = pair
+                s.explicit_date = True
+                return [s.conv, s.cur[pair[0]], s.cur[pair[1]], s.eff], {}
+            return setup
+        for kind in ("year", "month", "date"):
+            for read in ("first", "second"):
+                for pair in (("base", "ca"), ("base", "cb"), ("ca", "cb"), ("cb", "base")):
+                    cr.run("R11.9", GET, f"three updates over two periods (validity {kind}), date in the {read} period, "
+                           f"{pair[0]}->{pair[1]}", three_setup(kind, read, pair), judge_rate)
+        for kind in ("year", "month", "date", "text"):
+            for where in ("next", "year"):
+                if where == "year" and kind in ("year", "text"):
+                    continue
+                for pair in PAIRS:
+                    if (pair in FEW and kind != "text") or pair[0] == pair[1]:
+                        continue        # (identical currencies: known finding F6, filed under R11.3)
+                    cr.run("R11.4", GET, f"get_rate {pair[0]}->{pair[1]}, validity {kind}, date in another period ({where})",
+                           reader_setup(kind, pair, where, "explicit"), judge_rate)
+        for kind in ("month", "date", "text"):
+            for pair in PAIRS:
+                cr.run("R11.7", CALL, f"__call__ {pair[0]}->{pair[1]}, validity {kind}",
+                       reader_setup(kind, pair, "in", "explicit", call=True), judge_amount)
+        for kind in ("month", "date"):
+            for pair in PAIRS[:4]:
+                cr.run("R11.2", GET, f"get_rate {pair[0]}->{pair[1]}, validity {kind}, spec currency given by code",
+                       reader_setup(kind, pair, "in", "explicit", spec_as="str"), judge_rate)
+
     # ------------------------------------------------------------------ rejected updates change nothing
     def up_setup(prior, vkind, bad_spec):
         def setup(c):
@@ -473,6 +514,9 @@ def run(prog, tier) -> Result:
             return None
         if s.vkind == "float":
             return ("invalid validity accepted", o.brief())
+        if any(t in ("date()=ValueError", "fromisoformat=ValueError") for t in o.trace):
+            return ("invalid period accepted", "the period was found not to be a date / year / month (ValueError from "
+                    "the date constructor), yet the update went through")
         if s.bad_spec in ("amount", "base"):
             return ("invalid rate specification accepted", o.brief())
         if s.prior is not None and s.vkind != "text":
